@@ -108,7 +108,7 @@ package index
 //@   end
 
 //@ func (*multiWidthIndex).Unmarshal
-//@   call[mapupdate#0] assert stores_wellformed_bucket [C03,C09,C11]: 8 <= value.width && value.width <= 33554432 && value.len * value.width <= len(value.index) && key == value.width
+//@   call[mapupdate#0] assert stores_wellformed_bucket [C09,C11]: 8 <= value.width && value.width <= 33554432 && value.len * value.width <= len(value.index) && key == value.width
 
 // ---- serialization (C11): byte counts, field widths, error propagation
 
